@@ -184,11 +184,13 @@ fn failing_calls_n<const N: usize>() {
         for v in 0..=202 {
             l.add(v);
         }
-        let mut r: Sodg<N> = Sodg::empty(6);
-        for v in 0..5 {
+        // the chain 0 -> 2 -> 3 -> 4 -> 5 (id 1, the root of other right graphs, is not in it)
+        let mut r: Sodg<N> = Sodg::empty(7);
+        for v in [0usize, 2, 3, 4, 5] {
             r.add(v);
         }
-        for v in 0..4 {
+        r.bind(0, 2, lab(0));
+        for v in 2..5 {
             r.bind(v, v + 1, lab(0));
         }
         let _ = l.merge(&r, 202, 0);
